@@ -37,10 +37,23 @@ def run(tier, seed):
             first_strat = min([i for i, o in enumerate(p["ops"]) if o["op"] == "strat"] + [len(p["ops"])])
             p["ops"].insert(min(at, first_strat), {"op": "flow", "kind": "importation", "name": "pulse", "param": fn,
                                                    "dst": p["comps"][0], "split": False})
+        zeta = False
+        rnames = [o["name"] for o in p["ops"] if o["op"] == "req"]
+        if rnames and not any(o["op"] == "whitelist" for o in p["ops"]) and g.rng.random() < 0.5:
+            # a parameter that reaches the results only through an unsaved function output, which a saved
+            # cumulative / aggregate output consumes: an input parameter like any other
+            src = g.rng.choice(rnames)
+            p["ops"] += [{"op": "req", "name": "fz", "save": False,
+                          "req": {"type": "func", "fn": g.rng.choice([0, 1]), "sources": [src, src], "params": [{"p": "zeta"}]}},
+                         {"op": "req", "name": "cfz", "save": True,
+                          "req": g.rng.choice([{"type": "cum", "source": "fz", "start": None}, {"type": "agg", "sources": ["fz", src]}])}]
+            zeta = True
         used = sorted(_o.params_in(p["ops"], set()))
         if not used or len(used) > 4:
             continue
         pv = {k: v for k, v in g.params_values(small=True).items()}
+        if zeta:
+            pv["zeta"] = g.rng.choice(["3/4", "1/4", "5/2"])
         base = dict(p)
         obs = [{"obs": "onestep", "params": pv}]
         if (not p["nonlinear"]) or nsteps(p) <= 2:
